@@ -153,6 +153,11 @@ func drawHashLiteral(rt *rapid.T, depth int, extraKeys ...string) string {
 	for _, k := range extraKeys {
 		keys = append(keys, k, k)
 	}
+	if gen.Uniform(rt, "longkeys", 6) == 0 {
+		// long keys that agree in their first 40, 64 or 300 characters (paths, URLs)
+		prefix := strings.Repeat("/srv/data/customers/", rapid.SampledFrom([]int{2, 4, 16}).Draw(rt, "longkeylen"))
+		keys = []string{`"` + prefix + `a"`, `"` + prefix + `b"`, `"` + prefix + `"`, `"` + prefix + `a/b"`, `"a"`, `1`}
+	}
 	var parts []string
 	if gen.Uniform(rt, "nankeys", 8) == 0 {
 		// keys that print alike AND have the same type: NaNs with different
